@@ -40,3 +40,125 @@ Example C02_stash_then_release :
   let b := XItem (mkop (mkid 1 1) (Some (mkid 1 0)) None PUnknown None (UString 98)) in
   (snd (deliver empty_doc [b]) = [b]) /\ (snd (deliver empty_doc [b; a]) = [])%N.
 Proof. split; reflexivity. Qed.
+
+(* ---- the algorithm of the implementation (Crdt/Integrate.v: TransactionMut::apply_update, Update::integrate, BlockPicker, the retry of the stash) ---- *)
+From YV Require Import Lib.Bytes Ids.Ranges Crdt.Blocks Crdt.Merge Crdt.Integrate Crdt.IntegrateProofs Crdt.IntegrateCases.
+Open Scope N_scope.
+(* transcription of apply_update / Update::integrate / BlockPicker (Crdt/Integrate.v): in every reachable store every dependency of an integrated block was integrated before it, and no id is integrated twice   [Crdt/IntegrateProofs.v: itg_causal_safety] *)
+Theorem C02_block_integrated_only_after_its_dependencies : forall s, itg_reachable s ->
+  (forall i, itg_has (itg_blocks s) i = itg_log_has (itg_log s) i) /\
+  itg_log_causal (itg_log s) /\
+  itg_log_disjoint (itg_log s) /\
+  (forall b, In b (itg_log s) -> forall d, In d (itg_deps b) ->
+     itg_has (itg_blocks s) d = true /\ itg_is_missing (itg_blocks s) d = false).
+Proof. exact YV.Crdt.IntegrateProofs.itg_causal_safety. Qed.
+
+(* the picker loop and the retry of the stash terminate for any update and any stash   [Crdt/IntegrateProofs.v: itg_apply_terminates] *)
+Theorem C02_apply_update_terminates : forall s u, itg_blocks_wf (itg_blocks s) = true -> itg_apply_update_res s u <> itg_nofuel.
+Proof. exact YV.Crdt.IntegrateProofs.itg_apply_terminates. Qed.
+
+(* every id of the incoming update is already known, integrated now, or in the rest that is merged into the stash   [Crdt/IntegrateProofs.v: itg_step_conserves] *)
+Theorem C02_nothing_lost_between_store_and_stash : forall mrg s u s1 retry,
+  itg_blocks_ok (itg_blocks s) -> itg_update_wf (u_blocks (itg_abs_update u)) = true ->
+  itg_step_with mrg s u = itg_ok (s1, retry) ->
+  exists new rem,
+    itg_log s1 = new ++ itg_log s /\
+    itg_pend s1 = match itg_pend s with
+                  | Some p => Some (match rem with
+                                    | Some r => itg_mkpending (mrg (itg_p_update p) (itg_p_update r))
+                                                  (itg_merge_missing (itg_p_missing p) (itg_p_missing r))
+                                    | None => p
+                                    end)
+                  | None => rem
+                  end /\
+    forall c d j, In (c, d) (u_blocks (itg_abs_update u)) -> itg_dcov d j = true ->
+      itg_has (itg_blocks s) (mkid c j) = true \/
+      itg_log_has new (mkid c j) = true \/
+      exists r rest, rem = Some r /\ itg_get (u_blocks (itg_p_update r)) c = Some rest /\ itg_dcov rest j = true.
+Proof. exact YV.Crdt.IntegrateProofs.itg_step_conserves. Qed.
+
+(* every entry of pending.missing was missing when the block was set aside   [Crdt/IntegrateProofs.v: itg_missing_guarantee] *)
+Theorem C02_missing_vector_is_honest : forall mrg s u s1 retry p e,
+  itg_blocks_ok (itg_blocks s) -> itg_pend s = None ->
+  itg_step_with mrg s u = itg_ok (s1, retry) -> itg_pend s1 = Some p -> In e (itg_p_missing p) ->
+  itg_is_missing (itg_blocks s) (mkid (fst e) (snd e)) = true /\
+  (itg_is_missing (itg_blocks s1) (mkid (fst e) (snd e)) = false ->
+   exists new b, itg_log s1 = new ++ itg_log s /\ In b new /\ itg_covers b (mkid (fst e) (snd e)) = true).
+Proof. exact YV.Crdt.IntegrateProofs.itg_missing_guarantee. Qed.
+
+(* an update whose dependencies are integrated or lower-ranked blocks of itself leaves nothing pending   [Crdt/IntegrateProofs.v: itg_integrate_complete] *)
+Theorem C02_closed_update_is_integrated_completely : forall bs blocks0 log0 rank blocks' log' rem,
+  itg_update_ok bs -> itg_inv_bl blocks0 log0 ->
+  itg_closed_R1 bs blocks0 rank -> itg_closed_R2 bs rank ->
+  itg_integrate blocks0 log0 bs = itg_ok (blocks', log', rem) ->
+  rem = None /\ exists new, log' = new ++ log0 /\
+    forall c D b, In (c, D) bs -> In b D -> itg_is_skip b = false -> In b new.
+Proof. exact YV.Crdt.IntegrateProofs.itg_integrate_complete. Qed.
+
+(* retry fires exactly when an entry of the old pending.missing is no longer missing   [Crdt/IntegrateProofs.v: itg_retry_progress] *)
+Theorem C02_stash_is_retried_when_a_dependency_arrives : forall s u p s1 retry,
+  itg_pend s = Some p -> itg_step s u = itg_ok (s1, retry) ->
+  retry = existsb (fun e => negb (itg_is_missing (itg_blocks s1) (mkid (fst e) (snd e)))) (itg_p_missing p) /\
+  (retry = true ->
+   exists p', itg_pend s1 = Some p' /\
+     itg_apply_update_res s u =
+       itg_bind (itg_step (itg_mkstore (itg_blocks s1) None (itg_log s1)) (itg_p_update p')) (fun sr1 =>
+       itg_bind (itg_step (fst sr1) itg_empty_update) (fun sr2 =>
+         if snd sr2 then itg_retry (pred (itg_retry_fuel s1)) (fst sr2) else itg_ok (fst sr2)))).
+Proof. exact YV.Crdt.IntegrateProofs.itg_retry_progress. Qed.
+
+(* what the implementation's algorithm integrates is a subset of what the abstract delivery (full causal closure) integrates   [Crdt/IntegrateProofs.v: itg_sub_deliver_with] *)
+Theorem C02_integrates_at_most_the_causal_closure : forall mrg W s u s' (d : doc),
+  (itg_pend s <> None -> forall a b, itg_upd_sub W a -> itg_upd_sub W b -> itg_upd_sub W (mrg a b)) ->
+  itg_inv s ->
+  (forall p, itg_pend s = Some p -> itg_upd_sub W (itg_p_update p)) -> itg_upd_sub W u ->
+  (forall i, itg_has (itg_blocks s) i = true -> integrated d i = true) ->
+  itg_apply_with mrg s u = itg_ok s' ->
+  forall i, itg_has (itg_blocks s') i = true -> integrated (fst (deliver d W)) i = true.
+Proof. exact YV.Crdt.IntegrateProofs.itg_sub_deliver_with. Qed.
+
+(* equality under the hypotheses of completeness   [Crdt/IntegrateProofs.v: itg_deliver_equal] *)
+Theorem C02_and_exactly_the_closure_for_closed_updates : forall s u (rho : id -> nat) s' (d : doc),
+  itg_inv s -> itg_pend s = None ->
+  itg_update_wf (u_blocks (itg_abs_update u)) = true ->
+  (forall c dq b, In (c, dq) (u_blocks (itg_abs_update u)) -> In b dq -> itg_is_skip b = false ->
+     forall dep, In dep (itg_deps b) ->
+     itg_has (itg_blocks s) dep = true \/
+     ((rho dep < rho (block_id b))%nat /\
+      exists d2, In (cl dep, d2) (u_blocks (itg_abs_update u)) /\ itg_dcov d2 (ck dep) = true)) ->
+  (forall c dq j1 j2, In (c, dq) (u_blocks (itg_abs_update u)) -> itg_dcov dq j1 = true -> itg_dcov dq j2 = true ->
+     j1 < j2 -> (rho (mkid c j1) < rho (mkid c j2))%nat) ->
+  (forall i, itg_has (itg_blocks s) i = integrated d i) ->
+  itg_apply_update_res s u = itg_ok s' ->
+  forall i, itg_has (itg_blocks s') i = integrated (fst (deliver d (units_of_update (itg_abs_update u)))) i.
+Proof. exact YV.Crdt.IntegrateProofs.itg_deliver_equal. Qed.
+
+(* a block whose own dependencies are all integrated stays in the stash behind another block of its client   [Crdt/IntegrateCases.v: itg_complete_refuted] *)
+Theorem C06_KNOWN_FINDING_block_stuck_behind_its_clients_stuck_block :
+  match itg_stuck_store with
+  | Some s =>
+      forallb (fun d => itg_has (itg_blocks s) d && negb (itg_is_missing (itg_blocks s) d)) (itg_deps itg_stuck_block)
+      && negb (itg_has (itg_blocks s) (mkid 20 13))
+      && match itg_pend s with
+         | Some p => existsb (fun e => existsb (fun b => id_eqb (block_id b) (mkid 20 13) &&
+                                                   oid_eqb (match b with BItem _ o _ _ _ _ => o | _ => None end) (Some (mkid 20 7)))
+                                               (snd e)) (u_blocks (itg_p_update p))
+         | None => false
+         end
+      && itg_list_eqb itg_nn_eqb (itg_obs_missing s) [(20, 5)]
+  | None => false
+  end = true.
+Proof. exact YV.Crdt.IntegrateCases.itg_complete_refuted. Qed.
+
+(* applying the same update again integrates it   [Crdt/IntegrateCases.v: itg_complete_refuted_second_application] *)
+Theorem C06_KNOWN_FINDING_second_application_frees_it :
+  match itg_stuck_store, itg_stuck_update with
+  | Some s, Some u =>
+      match itg_apply_update_res s u with
+      | itg_ok s' => itg_has (itg_blocks s') (mkid 20 13) && itg_obs_has_pending s'
+      | _ => false
+      end
+  | _, _ => false
+  end = true.
+Proof. exact YV.Crdt.IntegrateCases.itg_complete_refuted_second_application. Qed.
+
